@@ -9,6 +9,7 @@ import (
 
 	"falcosim/sim/astcmp"
 	"falcosim/sim/simio"
+	"falcosim/sim/simsync"
 	"falcosim/sim/vclgen"
 	"falcosim/sim/worker"
 
@@ -220,8 +221,10 @@ func runC19Interleaved(c *worker.Ctx) {
 	}
 	alone := make([]string, len(us))
 	for i, u := range us {
+		simsync.ResetPools()
 		alone[i] = c19Use(u.stmts, u.single)
 	}
+	simsync.ResetPools()
 	every := []int{1, 1, 3, 17}[c.T.Draw(4)]
 	got := make([]string, len(us))
 	var tasks []*coTask
@@ -706,7 +709,12 @@ func c19CorpusCut(c *worker.Ctx) {
 	}
 	it := items[c.T.Draw(len(items))]
 	k := c.T.Draw(len(it.Enc) + 1)
-	chunk := []string{"all", "1", "half", "rand", "3"}[c.T.Draw(5)]
+	ci := c.T.Draw(7) // the enumerated sub-space forces 0 here
+	if ci >= 5 {
+		// the complete encoding, chunked: the round trip of a corpus statement
+		k, ci = len(it.Enc), []int{1, 3}[ci-5]
+	}
+	chunk := []string{"all", "1", "half", "rand", "3"}[ci]
 	plan := simio.Plan{Chunk: chunk, Terminal: "cut", CutAt: k}
 	if k == len(it.Enc) {
 		plan.Terminal = "eof"
@@ -732,6 +740,17 @@ func c19CorpusCut(c *worker.Ctx) {
 	// about what it lost (a missing final FIN byte, say) — but if it reports
 	// success, what it hands over must be the statement that was sent, not
 	// another, shorter one.
+	if k == len(it.Enc) && got.panicV == nil && !got.spin {
+		// nothing was lost: this is the round trip of a statement of falco's own
+		// sources (and the hand-written ones), whatever the chunking.
+		if got.err != nil {
+			res.Violate("C19/roundtrip", "C19/corpus-roundtrip:decode-error:"+fmt.Sprintf("%T", it.Stmt), fmt.Sprintf("the complete encoding of %s (%T, %d bytes), delivered %s, does not decode: %v", it.Name, it.Stmt, len(it.Enc), chunk, got.err))
+		} else if d := astcmp.Diff([]ast.Statement{it.Stmt}, got.stmts); d != "" {
+			res.Violate("C19/roundtrip", "C19/corpus-roundtrip:"+fmt.Sprintf("%T", it.Stmt), fmt.Sprintf("the complete encoding of %s (%T, %d bytes), delivered %s, decodes to a different statement: %s", it.Name, it.Stmt, len(it.Enc), chunk, d))
+		} else {
+			res.Probe("corpus_statement_round_trip")
+		}
+	}
 	if k < len(it.Enc) && got.err == nil && got.panicV == nil && !got.spin {
 		if d := astcmp.Diff([]ast.Statement{it.Stmt}, got.stmts); d != "" {
 			res.Violate("C19/roundtrip", "C19/truncated-decodes-to-another-statement:"+fmt.Sprintf("%T", it.Stmt), fmt.Sprintf("the encoding of %s (%T, %d bytes) cut after %d bytes decodes WITHOUT an error to a different statement: %s", it.Name, it.Stmt, len(it.Enc), k, d))
